@@ -113,7 +113,8 @@ def run(eng, tier):
                 if root == 'instantiate': eng.ob(w['ns'] in ('contract_info', 'version_info'), PROP, 'write-key', 'instantiate:' + str(w['ns']), 'instantiate writes %s' % w['ns'], where=w['site'])
                 if root == 'migrate': eng.ob(w['ns'] in ('contract_info', 'version_info', 'bid'), PROP, 'write-key', 'migrate:' + str(w['ns']), 'migrate writes %s' % w['ns'], where=w['site'])
     # no unanalysed call may mutate state: every opaque (external, unmodelled) callee receiving `&mut` / DepsMut is on a confirmed list
-    ALLOWED_OPAQUE_MUT = (lambda name, ty: name.endswith('DepsMut::<\'a, C>::branch') or (ty.startswith('&mut std::slice::Iter<') or ty.startswith('&mut std::vec::IntoIter<') or 'std::iter::' in ty))
+    # only callees that are handed mutable access to storage (`&mut dyn Storage`, `DepsMut`) matter: local collections are not state
+    ALLOWED_OPAQUE_MUT = (lambda name, ty: name.endswith('DepsMut::<\'a, C>::branch'))
     seen_opaque = collections.Counter()
     for root in eng.s['roots']:
         for p in eng.paths(root, None, None, feasible_only=False):
@@ -121,7 +122,7 @@ def run(eng, tier):
                 if e['op'] == 'opaque_mut_call':
                     seen_opaque[(e['ns'], e['val'])] += 1
     for (name, ty), n_ in seen_opaque.items():
-        eng.ob(ALLOWED_OPAQUE_MUT(name, ty or ''), PROP, 'unanalysed-mutation', name, 'external function %s receives %s and is not modelled: it could write storage or state behind the analysis' % (name, ty))
+        eng.ob(ALLOWED_OPAQUE_MUT(name, ty or ''), PROP, 'unanalysed-mutation', name, 'external function %s receives mutable storage access (%s) and is not modelled: it could write storage behind the analysis' % (name, ty))
     # version record: only instantiate / migrate
     for p in eng.paths('execute', 'ok'):
         for w in p.writes:
